@@ -1150,7 +1150,429 @@ mod structural {
     }
 }
 
+// ---------------------------------------------------------------------------------------------
+// (iv) the whole v2 engine, step by step (`tng_complex.rs`) against the Lean model `Yuiv/Model/C05Engine.lean`.
+//      STATEFUL requests `eg …`: the driver keeps numbered slots; every step of an explicit script
+//      (`init`, `app`end a crossing, `con`nect two sub-complexes, `dl` = deloop(key, r), `el` = eliminate(k0, k1))
+//      is applied to the real `TngComplex<i64>` and to the model, and the canonical dump of the whole state
+//      (counts, well-formedness, FNV hash of the text, the text itself when short) is compared after EVERY step.
+//      `fin`: homology of the final complex from the library = from the model's matrices = from the cube of
+//      resolutions (Lean reference), evaluated inside the driver.
+
+mod engine {
+    use super::*;
+    use super::structural::{dots_of, t_txt};
+    use std::collections::BTreeMap;
+    use yui_kh::kh::internal::v2::cob::{Cob, CobComp, LcCob, LcCobTrait};
+    use yui_kh::kh::internal::v2::tng_complex::{TngComplex, TngKey};
+    use yui_kh::kh::{KhAlgGen, KhLabel};
+    use yui_link::{Crossing, CrossingType, State};
+
+    type C = TngComplex<i64>;
+    const TEXT_LIMIT: usize = 1200;
+
+    pub fn key_txt(k: &TngKey) -> String {
+        let mut s = String::new();
+        for b in k.state.iter() { s.push(if b.is_zero() { '0' } else { '1' }); }
+        s.push('.');
+        for g in k.label.iter() { s.push(if g.is_X() { 'X' } else { 'I' }); }
+        s
+    }
+    fn comp_txt(c: &CobComp) -> String {
+        let (x, y) = if c.ndots() == 0 { (0, 0) } else { dots_of(c) };
+        format!("{}/{}/{}/{}/{}", t_txt(c.src()), t_txt(c.tgt()), c.genus(), x, y)
+    }
+    fn cob_txt(k: &Cob) -> String { if k.is_empty() { "_".into() } else { k.comps().map(comp_txt).collect::<Vec<_>>().join("+") } }
+    fn lc_txt(f: &LcCob<i64>) -> String {
+        if f.is_zero() { return "0".into() }
+        let mut v: Vec<String> = f.iter().map(|(c, r)| format!("{}*{}", r, cob_txt(c))).collect();
+        v.sort();
+        v.join("|")
+    }
+    fn sorted_keys(c: &C) -> Vec<TngKey> { let mut v: Vec<TngKey> = c.keys().cloned().collect(); v.sort(); v }
+    fn state_text(c: &C) -> String {
+        let (dh, dq) = c.deg_shift();
+        let bp = c.base_pt().map(|e| e.to_string()).unwrap_or("-".into());
+        let mut vs: Vec<String> = c.keys().map(|k| format!("{}:{}", key_txt(k), t_txt(c.vertex(k).tng()))).collect();
+        vs.sort();
+        let mut es: Vec<String> = vec![];
+        for k in c.keys() { for l in c.keys_out_from(k) {
+            let f = c.edge(k, l);
+            es.push(format!("{}>{}:{}{}", key_txt(k), key_txt(l), lc_txt(f), if f.is_invertible() { "!" } else { "" }));
+        } }
+        es.sort();
+        format!("sh={},{} bp={} n={} V={} E={}", dh, dq, bp, c.dim(), vs.join(";"), es.join(";"))
+    }
+    fn fnv(s: &str) -> u64 {
+        let mut h = 0xcbf29ce484222325u64;
+        for b in s.bytes() { h ^= b as u64; h = h.wrapping_mul(0x100000001b3); }
+        h
+    }
+    /// `validate()` (in/out edge sets consistent, no zero label, boundary tangles of every term match the vertices)
+    /// + every edge raises the weight by one + no zero coefficient is stored
+    fn wf(c: &C) -> bool {
+        if guard(|| c.validate()).is_none() { return false }
+        for k in c.keys() { for l in c.keys_out_from(k) {
+            if l.weight() != k.weight() + 1 { return false }
+            if c.edge(k, l).iter().any(|(_, r)| r.is_zero()) { return false }
+            if !c.keys_into(l).any(|j| j == k) { return false }
+        } }
+        true
+    }
+    fn nedges(c: &C) -> usize { c.keys().map(|k| c.keys_out_from(k).count()).sum() }
+    fn dump(c: &C) -> String {
+        let txt = state_text(c);
+        let head = format!("nv={} ne={} wf={} h={}", c.nverts(), nedges(c), wf(c) as u8, fnv(&txt));
+        if txt.len() <= TEXT_LIMIT { format!("{} {}", head, txt) } else { head }
+    }
+    /// circles that may be delooped now.  A circle through the base point (reduced theory) is only delooped at the very
+    /// end (`based = true`), as `TngComplexBuilder` does (`deloop_in(i, allow_based = false)` while crossings are
+    /// processed, `finalize` afterwards): restricting ONE vertex to its X-copy while neighbours still carry the based
+    /// strand as an open arc is not an operation of the reduced theory.
+    fn loops(c: &C, based: bool) -> Vec<(TngKey, usize)> {
+        let mut out = vec![];
+        for k in sorted_keys(c) { for (r, a) in c.vertex(&k).tng().comps().enumerate() {
+            if a.is_circle() && c.contains_base_pt(a) == based { out.push((k, r)); }
+        } }
+        out
+    }
+    fn pivots(c: &C) -> Vec<(TngKey, TngKey)> {
+        let mut out = vec![];
+        for k in sorted_keys(c) {
+            let mut ls: Vec<TngKey> = c.keys_out_from(&k).cloned().collect(); ls.sort();
+            for l in ls { if c.edge(&k, &l).is_invertible() { out.push((k, l)); } }
+        }
+        out
+    }
+    fn ct_txt(x: &Crossing) -> &'static str { match x.ctype() { CrossingType::X => "X", CrossingType::Xm => "Xm", CrossingType::V => "V", CrossingType::H => "H" } }
+
+    pub struct Run<'a> {
+        pub s: &'a mut Sink,
+        pub slots: BTreeMap<usize, C>,
+        pub steps: usize,
+        pub dead: bool,           // an unexpected panic left a slot in an unknown state: the script stops
+        pub ht: (i64, i64),
+    }
+    impl<'a> Run<'a> {
+        pub fn new(s: &'a mut Sink, ht: (i64, i64)) -> Self {
+            s.case("eg new", "ok", false);
+            Run { s, slots: BTreeMap::new(), steps: 0, dead: false, ht }
+        }
+        fn emit(&mut self, kind: &str, req: String, reply: String) {
+            self.steps += 1;
+            self.s.count(&format!("eng.step.{}", kind));
+            if reply == "panic" { self.s.count(&format!("eng.panic.{}", kind)); }
+            self.s.case(&req, &reply, true);
+        }
+        pub fn init(&mut self, i: usize, sh: (isize, isize), bp: Option<usize>) {
+            let c = C::init(&self.ht.0, &self.ht.1, sh, bp);
+            let reply = dump(&c);
+            self.slots.insert(i, c);
+            self.emit("init", format!("eg init {} {} {} {} {} {}", i, self.ht.0, self.ht.1, sh.0, sh.1, bp.map(|e| e.to_string()).unwrap_or("-".into())), reply);
+        }
+        pub fn app(&mut self, i: usize, x: &Crossing) {
+            let e = x.edges();
+            let req = format!("eg app {} {} {} {} {} {}", i, ct_txt(x), e[0], e[1], e[2], e[3]);
+            let c = self.slots.get_mut(&i).unwrap();
+            let reply = match guard(|| c.append(x)) { Some(_) => dump(c), None => { self.dead = true; "panic".into() } };
+            self.emit("app", req, reply);
+        }
+        pub fn con(&mut self, i: usize, j: usize, expect_panic: bool) {
+            let other = self.slots.remove(&j).unwrap();
+            let c = self.slots.get_mut(&i).unwrap();
+            let reply = match guard(|| c.connect(other)) { Some(_) => dump(c), None => { if !expect_panic { self.dead = true; } "panic".into() } };
+            self.emit("con", format!("eg con {} {}", i, j), reply);
+        }
+        pub fn dl(&mut self, i: usize, k: &TngKey, r: usize, expect_panic: bool) {
+            let c = self.slots.get_mut(&i).unwrap();
+            let reply = match guard(|| c.deloop(k, r)) {
+                Some(upd) => format!("upd={} {}", upd.iter().map(key_txt).collect::<Vec<_>>().join(","), dump(c)),
+                None => { if !expect_panic { self.dead = true; } "panic".into() }
+            };
+            self.emit(if expect_panic { "dl-bad" } else { "dl" }, format!("eg dl {} {} {}", i, key_txt(k), r), reply);
+        }
+        pub fn el(&mut self, i: usize, k0: &TngKey, k1: &TngKey, expect_panic: bool) {
+            let c = self.slots.get_mut(&i).unwrap();
+            let reply = match guard(|| c.eliminate(k0, k1)) { Some(_) => dump(c), None => { if !expect_panic { self.dead = true; } "panic".into() } };
+            self.emit(if expect_panic { "el-bad" } else { "el" }, format!("eg el {} {} {}", i, key_txt(k0), key_txt(k1)), reply);
+        }
+        pub fn query(&mut self, i: usize) {
+            let reply = dump(&self.slots[&i]);
+            self.emit("q", format!("eg q {}", i), reply);
+        }
+        /// final step: the library's homology of the complex; the reply claims that the model's matrices and the cube
+        /// of resolutions give the same tables
+        pub fn fin(&mut self, i: usize, red: bool, link: &Link, with_ref: bool, desc: &str) {
+            let c = self.slots.remove(&i).unwrap();
+            let bg = self.ht == (0, 0);
+            let req = format!("eg fin {} {} {} | {}", i, red as u8, with_ref as u8, link_txt(link));
+            let res = guard(|| {
+                let kc = c.into_kh_complex(vec![]);
+                let gens: Vec<String> = kc.h_range().map(|i| kc.rank(i).to_string()).collect();
+                let kh = kc.homology();
+                let tor = |x: &i64| BigInt::from(*x);
+                let plain = hom_table(kh.support().map(|i| { let g = kh.get(i); (i, g.rank(), g.tors().iter().cloned().collect::<Vec<i64>>()) }).collect(), &tor);
+                let big = if bg {
+                    let kb = kh.into_bigraded();
+                    let cells = kb.support().map(|idx| { let g = kb.get(idx); ((idx.0, Some(idx.1)), group_txt(g.rank(), g.tors().iter().map(|x| BigInt::from(*x)).collect())) }).collect();
+                    table_txt(cells)
+                } else { String::new() };
+                (kc, gens.join(","), plain, big)
+            });
+            let reply = match res {
+                Some((kc, gens, plain, big)) => {
+                    // the property's own oracle on the complex the engine produced through THIS script
+                    let s = &mut *self.s;
+                    guarded_case(s, desc, |s| { let _ = check_complex(s, desc, &kc, bg); });
+                    let r = if with_ref { plain.clone() } else { "-".to_string() };
+                    let base = format!("gens={} mat={} ref={}", gens, plain, r);
+                    if bg { format!("{} bmat={} bref={}", base, big, if with_ref { big.clone() } else { "-".to_string() }) } else { base }
+                }
+                None => "panic".into(),
+            };
+            self.emit("fin", req, reply);
+        }
+        pub fn nverts(&self, i: usize) -> usize { self.slots[&i].nverts() }
+
+        /// apply legal simplification steps chosen at random; `all`: until nothing is left
+        pub fn simplify(&mut self, r: &mut Rng, i: usize, all: bool, cap: usize) {
+            loop {
+                if self.dead { return }
+                let c = &self.slots[&i];
+                let ls = loops(c, false);
+                let ps = pivots(c);
+                if ls.is_empty() && ps.is_empty() { return }
+                let big = c.nverts() > cap;
+                if !all && !big && r.chance(1, 7) { return }
+                // a large complex is first shrunk by eliminations
+                let pick_el = !ps.is_empty() && (ls.is_empty() || (big && r.chance(3, 4)) || r.chance(1, 2));
+                if pick_el { let (k, l) = *r.pick(&ps); self.el(i, &k, &l, false); }
+                else { let (k, q) = *r.pick(&ls); self.dl(i, &k, q, false); }
+            }
+        }
+
+        /// requests the real code rejects with a panic BEFORE touching the complex; the model must say `panic` too
+        pub fn malformed(&mut self, r: &mut Rng, i: usize) {
+            let keys = sorted_keys(&self.slots[&i]);
+            if keys.is_empty() { return }
+            let k = *r.pick(&keys);
+            let ncomp = self.slots[&i].vertex(&k).tng().ncomps();
+            match r.below(7) {
+                0 => { // unknown key
+                    let mut u = k; u.label.push(KhAlgGen::X); u.label.push(KhAlgGen::I); u.label.push(KhAlgGen::X);
+                    if !self.slots[&i].contains_key(&u) { self.dl(i, &u, 0, true); }
+                }
+                1 => self.dl(i, &k, ncomp + r.below(2) as usize, true),       // index out of range
+                2 => { // not a circle
+                    let arcs: Vec<usize> = self.slots[&i].vertex(&k).tng().comps().enumerate().filter(|(_, a)| a.is_arc()).map(|(q, _)| q).collect();
+                    if !arcs.is_empty() { let q = *r.pick(&arcs); self.dl(i, &k, q, true); }
+                }
+                3 => { // no such edge (k -> k, or two vertices without an edge)
+                    let l = *r.pick(&keys);
+                    if !self.slots[&i].keys_out_from(&k).any(|x| *x == l) { self.el(i, &k, &l, true); }
+                }
+                4 => { // unknown key in eliminate
+                    let u = TngKey { state: State::from_iter([1u8, 1, 1, 1, 1, 1, 1, 1, 1, 1, 1, 1]), label: KhLabel::from_iter([KhAlgGen::I]) };
+                    if r.bool() { self.el(i, &u, &k, true); } else { self.el(i, &k, &u, true); }
+                }
+                5 => { // an edge that is not invertible (one term only: `LcCob::inv` looks at "the first" term)
+                    let c = &self.slots[&i];
+                    let mut cand = vec![];
+                    for k in &keys { for l in c.keys_out_from(k) { let f = c.edge(k, l); if f.nterms() == 1 && !f.is_invertible() { cand.push((*k, *l)); } } }
+                    cand.sort();
+                    if !cand.is_empty() { let (a, b) = *r.pick(&cand); self.el(i, &a, &b, true); }
+                }
+                _ => self.query(i),
+            }
+        }
+    }
+
+    pub struct Plan { pub cap: usize, pub with_ref: bool, pub malformed: bool }
+
+    /// one explicit script for one diagram
+    pub fn script(s: &mut Sink, r: &mut Rng, name: &str, link: &Link, ht: (i64, i64), red: bool, plan: &Plan) {
+        let data = link.data().clone();
+        let n = data.len();
+        let mut order: Vec<usize> = (0..n).collect();
+        r.shuffle(&mut order);
+        let total = KhComplex::<i64>::deg_shift_for(link, red);
+        let base = if red { link.first_edge() } else { None };
+        let split = n >= 2 && r.chance(1, 3);
+        let desc = format!("engine script {} (h,t)=({},{}) reduced={} order={:?} split={} link: {}", name, ht.0, ht.1, red, order, split, link_txt(link));
+        s.count(&format!("eng.crossings.{}", n));
+        s.count(&format!("eng.ht.{},{}", ht.0, ht.1));
+        s.count(if red { "eng.reduced" } else { "eng.unreduced" });
+        s.count(if split { "eng.split" } else { "eng.single" });
+        let mut run = Run::new(s, ht);
+        let parts: Vec<Vec<usize>> = if split { let cut = 1 + r.below(n as u64 - 1) as usize; vec![order[..cut].to_vec(), order[cut..].to_vec()] } else { vec![order.clone()] };
+        let a = if split { (r.range(-2, 2) as isize, r.range(-3, 3) as isize) } else { total };
+        let shifts = [a, (total.0 - a.0, total.1 - a.1)];
+        // base point: on the first part always; on the second part sometimes as well (`connect_init` accepts equal ones)
+        let bases = [base, if r.bool() { base } else { None }];
+        let mut mal_left = if plan.malformed { 3 } else { 0 };
+        for (p, part) in parts.iter().enumerate() {
+            run.init(p, shifts[p], bases[p]);
+            for &ix in part {
+                if run.dead { break }
+                run.app(p, &data[ix]);
+                if run.dead { break }
+                if mal_left > 0 && r.chance(1, 3) { run.malformed(r, p); mal_left -= 1; }
+                let defer = r.chance(1, 4) && run.nverts(p) <= plan.cap / 4;
+                if !defer { run.simplify(r, p, false, plan.cap); }
+                // never let a deferred complex double beyond the cap
+                if !run.dead && run.nverts(p) > plan.cap { run.simplify(r, p, true, plan.cap); }
+            }
+        }
+        if split && !run.dead {
+            // keep the product small: simplify both factors when they are big
+            for p in 0..2 { if run.nverts(p) > 8 || r.chance(1, 2) { let all = run.nverts(p) > 8 || r.bool(); run.simplify(r, p, all, plan.cap); } }
+            // the product has nverts(0) * nverts(1) vertices
+            for p in 0..2 { if !run.dead && run.nverts(0) * run.nverts(1) > 4 * plan.cap { run.simplify(r, p, true, plan.cap); } }
+            if !run.dead { run.con(0, 1, false); }
+        }
+        if !run.dead {
+            if mal_left > 0 { run.malformed(r, 0); }
+            // finish: every circle must go; eliminations mostly all, sometimes only some
+            loop {
+                if run.dead { break }
+                let ls = loops(&run.slots[&0], false);
+                if ls.is_empty() { break }
+                let big = run.nverts(0) > plan.cap;
+                let ps = if big || r.chance(1, 3) { pivots(&run.slots[&0]) } else { vec![] };
+                if !ps.is_empty() { let (k, l) = *r.pick(&ps); run.el(0, &k, &l, false); }
+                else { let (k, q) = *r.pick(&ls); run.dl(0, &k, q, false); }
+            }
+            if !run.dead && red && r.chance(1, 2) { let all = r.bool(); run.simplify(r, 0, all, plan.cap); }
+            // reduced theory: now the circles through the base point, all of them in one go
+            loop {
+                if run.dead { break }
+                let ls = loops(&run.slots[&0], true);
+                if ls.is_empty() { break }
+                let (k, q) = *r.pick(&ls);
+                run.dl(0, &k, q, false);
+                run.s.count("eng.step.dl-based");
+            }
+            if !run.dead && r.chance(4, 5) { let all = r.chance(3, 4); run.simplify(r, 0, all, plan.cap); }
+        }
+        if !run.dead { run.fin(0, red, link, plan.with_ref, &desc); }
+        let steps = run.steps;
+        s.count(&format!("eng.script-steps.{}", match steps { 0..=9 => "0-9", 10..=39 => "10-39", 40..=159 => "40-159", _ => "160+" }));
+        s.count("eng.scripts");
+    }
+
+    /// scripts that end in a rejected request: `fin` before everything is delooped, `connect` with two base points
+    pub fn rejected(s: &mut Sink, r: &mut Rng) {
+        let l = Link::trefoil();
+        let data = l.data().clone();
+        {
+            let mut run = Run::new(s, (0, 0));
+            run.init(0, (0, 0), None);
+            run.app(0, &data[0]); run.app(0, &data[1]); run.app(0, &data[2]);
+            run.malformed(r, 0);
+            run.fin(0, false, &l, false, "fin before delooping");     // `assert!(self.is_completely_delooped())`
+        }
+        {
+            let mut run = Run::new(s, (0, 0));
+            run.init(0, (0, 0), Some(1));
+            run.init(1, (0, 0), Some(2));
+            run.app(0, &data[0]);
+            run.app(1, &data[1]);
+            run.con(0, 1, true);                                      // two different base points
+            run.query(0);
+        }
+        {
+            // a resolved crossing, the empty complex, and a kink closed up in one step
+            let mut run = Run::new(s, (1, 0));
+            run.init(0, (0, 0), None);
+            run.app(0, &Crossing::from_pd_code([0, 1, 1, 0]).resolved(Bit::Bit0));
+            run.app(0, &Crossing::from_pd_code([2, 2, 3, 3]));
+            run.simplify(r, 0, true, 64);
+            let un = Link::from_pd_code([[2, 2, 3, 3]]);
+            let _ = un;
+            run.query(0);
+        }
+    }
+}
+
 struct Case { name: String, link: Link }
+
+fn engine_stream(s: &mut Sink, r: &mut Rng, thorough: bool, cases: &[Case]) {
+    use engine::{script, rejected, Plan};
+    let hts: [(i64, i64); 5] = [(0, 0), (1, 0), (0, 1), (2, 3), (-1, 5)];
+    rejected(s, r);
+    // hand-written corpus: every small diagram, all parameter pairs, with the malformed requests mixed in
+    for c in cases.iter().take(12) {
+        if c.link.data().len() > 5 { continue }
+        for &ht in &hts {
+            if !thorough && ht == (-1, 5) { continue }
+            let plan = Plan { cap: 48, with_ref: true, malformed: true };
+            script(s, r, &c.name, &c.link, ht, false, &plan);
+            if ht.1 == 0 && !c.link.is_empty() && (thorough || r.bool()) { script(s, r, &c.name, &c.link, ht, true, &plan); }
+        }
+    }
+    // random diagrams: table links, braid closures, kinked / renumbered variants (the complex stream's cases) …
+    let max_n = if thorough { 8 } else { 6 };
+    let mut pool: Vec<&Case> = cases.iter().filter(|c| c.link.data().len() <= max_n && c.link.data().len() >= 2).collect();
+    r.shuffle(&mut pool);
+    let n_scripts = if thorough { 400 } else { 36 };
+    for k in 0..n_scripts {
+        if pool.is_empty() { break }
+        let c = pool[k % pool.len()];
+        let ht = *r.pick(&hts[..4]);
+        let red = ht.1 == 0 && r.chance(1, 3);
+        let plan = Plan { cap: if thorough { 96 } else { 40 }, with_ref: true, malformed: r.chance(1, 4) };
+        script(s, r, &c.name, &c.link, ht, red, &plan);
+    }
+    // … and a few larger ones in the thorough tier (9–10 crossings; the cube reference only up to 9)
+    if thorough {
+        let mut names = table_names(10);
+        names.retain(|n| load(n).map(|l| l.crossing_num() >= 9).unwrap_or(false));
+        r.shuffle(&mut names);
+        for n in names.into_iter().take(10) {
+            if let Some(l) = load(&n) {
+                let ht = *r.pick(&hts[..3]);
+                let plan = Plan { cap: 40, with_ref: l.crossing_num() <= 9, malformed: false };
+                script(s, r, &n, &l, ht, false, &plan);
+            }
+        }
+        for _ in 0..6 {
+            let strands = 3 + r.below(2) as usize;
+            let len = 9 + r.below(2) as usize;
+            let (w, l) = random_braid(r, strands, len);
+            if let Some(l) = l { if l.crossing_num() <= 10 {
+                let plan = Plan { cap: 40, with_ref: l.crossing_num() <= 9, malformed: false };
+                let ht = *r.pick(&hts[..3]);
+                script(s, r, &format!("braid{}{:?}", strands, w), &l, ht, false, &plan);
+            } }
+        }
+    }
+}
+
+fn corpus_cases(cases: &mut Vec<Case>) {
+    let mk = |name: &str, link: Link| Case { name: name.to_string(), link };
+    cases.push(mk("empty", Link::empty()));
+    cases.push(mk("unknot", Link::unknot()));
+    cases.push(mk("kink+", Link::from_pd_code([[0, 0, 1, 1]])));
+    cases.push(mk("kink-", Link::from_pd_code([[0, 1, 1, 0]])));
+    cases.push(mk("unlink2", Link::from_pd_code([[0, 0, 1, 1]]).resolved_at(0, Bit::Bit0)));
+    cases.push(mk("hopf", Link::hopf_link()));
+    cases.push(mk("hopf-mirror", Link::hopf_link().mirror()));
+    cases.push(mk("trefoil", Link::trefoil()));
+    cases.push(mk("trefoil-mirror", Link::trefoil().mirror()));
+    cases.push(mk("figure8", Link::figure8()));
+}
+fn extra_cases(cases: &mut Vec<Case>, r: &mut Rng, thorough: bool) {
+    let mut names = table_names(if thorough { 8 } else { 6 });
+    r.shuffle(&mut names);
+    names.truncate(if thorough { 60 } else { 8 });
+    for n in names { if let Some(l) = load(&n) { cases.push(Case { name: n, link: l }); } }
+    for _ in 0..(if thorough { 40 } else { 8 }) {
+        let strands = 2 + r.below(3) as usize;
+        let len = (strands - 1) + r.below(5) as usize;
+        let (w, l) = random_braid(r, strands, len.min(if thorough { 8 } else { 6 }));
+        if let Some(l) = l { cases.push(Case { name: format!("braid{}{:?}", strands, w), link: l }); }
+    }
+}
 
 fn main() {
     let args = Args::parse();
@@ -1161,6 +1583,18 @@ fn main() {
         specialisation at (h0,t0) in {-2..2}^2 vs the directly built complex; integer matrices also to the Lean checker (matMulZero, Smith homology, cube reference); \
         non-trivial = genus+dots >= 2 (kernel) / diagram with >= 2 crossings (complexes); distinct = distinct request lines / descriptions");
     let mut r = Rng::new(args.seed);
+
+    // `engine-only` (extra argument): just the engine stream (used for timing and mutation trials)
+    if args.extra.iter().any(|a| a == "engine-only") {
+        let mut cases: Vec<Case> = vec![];
+        corpus_cases(&mut cases);
+        let mut r0 = Rng::new(args.seed);
+        extra_cases(&mut cases, &mut r0, thorough);
+        let mut r4 = Rng::new(args.seed ^ 0x0e61_9e05);
+        engine_stream(&mut s, &mut r4, thorough, &cases);
+        s.finish();
+        return
+    }
 
     // (i) kernel
     kernel(&mut s, &mut r, thorough);
@@ -1239,5 +1673,11 @@ fn main() {
     let t3 = std::time::Instant::now();
     structural::run(&mut s, &mut r3, thorough);
     eprintln!("c05: structural streams took {} ms", t3.elapsed().as_millis());
+
+    // (iv) the engine, step by step (own generator state as well)
+    let mut r4 = Rng::new(args.seed ^ 0x0e61_9e05);
+    let t4 = std::time::Instant::now();
+    engine_stream(&mut s, &mut r4, thorough, &cases);
+    eprintln!("c05: engine stream took {} ms", t4.elapsed().as_millis());
     s.finish();
 }
